@@ -112,11 +112,11 @@ func init() {
 			Runs: []Run{
 				{S: c11Small(), Opt: map[Tier]Options{
 					Quick:    {Depth: 4, Budget: 120 * time.Second, ReplayEvery: 4},
-					Thorough: {Depth: 6, Budget: 20 * time.Minute, ReplayEvery: 8, MaxStates: 400000},
+					Thorough: {Depth: 6, Budget: 10 * time.Minute, ReplayEvery: 8, MaxStates: 400000},
 				}},
 				{S: c11Extreme(), Opt: map[Tier]Options{
 					Quick:    {Depth: 4, Budget: 60 * time.Second, ReplayEvery: 4},
-					Thorough: {Depth: 7, Budget: 10 * time.Minute, ReplayEvery: 8, MaxStates: 300000},
+					Thorough: {Depth: 7, Budget: 6 * time.Minute, ReplayEvery: 8, MaxStates: 300000},
 				}},
 			},
 			Owns:        ownsAny("str.release_amount", "str.refund_amount", "str.lastoutflow", "str.zerotime", "str.sustain", "str.deposit"),
